@@ -203,3 +203,38 @@ func VH_C11_cross(order int, capacity int) {
 		}
 	}
 }
+
+// C11(d): eviction. l plain verifications of one-entry signatures (claimed signer, owner and
+// message symbolic) against a cache of the given capacity: re-verification after eviction, hits
+// after other insertions, failed verifications in between.
+func VH_C11_evict(l int, capacity int) {
+	n := 4
+	w := VNewWorld(1, n, false, 0, vsymbolic())
+	plain, inner := crypto.NewECDSA(w.Cfg), crypto.NewECDSA(w.Cfg)
+	cached := &Cache{impl: inner, capacity: capacity, entries: make(map[string]*list.Element, capacity)}
+	m0 := []byte{nondetU8("m0"), nondetU8("m0")}
+	m1 := []byte{nondetU8("m1"), nondetU8("m1")}
+	msgs := [][]byte{m0, m1}
+	accepted := 0
+	for step := 0; step < l; step++ {
+		es := vhEntries(w, 1, 2)
+		sig := w.Multi(es, msgs)
+		msg := vhPick(nondetInt("verify-msg")&1, m0, m1, w.Sym)
+		e1 := plain.Verify(sig, msg)
+		e2 := cached.Verify(sig, msg)
+		vobserve("verify", vhB(e1 == nil))
+		if e1 == nil {
+			accepted++
+		}
+		vassert((e1 == nil) == (e2 == nil), "cache-verify-verdict-equals-uncached")
+		vassert(len(cached.entries) <= capacity, "cache-never-exceeds-capacity")
+		vassert(cached.accessOrder.Len() == len(cached.entries), "cache-index-consistent")
+		for e := cached.accessOrder.Front(); e != nil; e = e.Next() {
+			_, ok := cached.entries[e.Value.(string)]
+			vassert(ok, "every-listed-key-is-indexed")
+		}
+	}
+	if accepted >= 2 {
+		vcover("several-accepted")
+	}
+}
